@@ -387,7 +387,13 @@ def execute(case, keep_text=False):
             return 'invalid', None
         except Exception as e:     # not an invalid-atmosphere signal
             return 'skip', repr(e)
+        if all(not math.isfinite(float(v)) for v in ym):
+            # e.g. NaN temperatures: every native point, hence every bin and
+            # chi-squared, is non-finite whatever the binning arithmetic
+            return 'skip', 'model spectrum entirely non-finite'
         if any(v is None or not math.isfinite(v) for v in yb):
+            # (a reference that merely overflows near 1e150 says nothing
+            # about the callback's own arithmetic)
             return 'skip', 'non-finite reference model'
         return 'valid', refs.gaussian_loglike(yo, yb, so)
 
@@ -481,7 +487,8 @@ def execute(case, keep_text=False):
             if verdict == 'skip':
                 out.bump('probes', 'oracle_skip')
                 pattern.append('s')
-                if Lref == 'non-finite reference model' and math.isfinite(L) \
+                if Lref == 'model spectrum entirely non-finite' and \
+                        math.isfinite(L) \
                         and not fired:
                     # the binned model has a NaN/inf bin: so has chi-squared
                     viol('loglike-mismatch', kind + ':nonfinite-model',
@@ -504,10 +511,12 @@ def execute(case, keep_text=False):
                     out.bump('probes', 'valid_right_after_invalid')
                     state['after_fault'] = False
                 tol = 1e-10 * abs(Lref) + 1e-9
-                if not math.isfinite(Lref):
-                    # overflow in the reference itself (e.g. a negative
-                    # mixing ratio from an unbounded prior): same value wanted
-                    same = (L == Lref) or (math.isnan(L) and math.isnan(Lref))
+                if not math.isfinite(Lref) or abs(Lref) > 1e290:
+                    # overflow (or nearly) in the reference itself, e.g. a
+                    # negative mixing ratio from an unbounded prior: the
+                    # callback must be non-finite or astronomically large too;
+                    # which of the two depends on the order of summation
+                    same = (not math.isfinite(L)) or abs(L) > 1e280
                     out.bump('probes', 'nonfinite_reference')
                 else:
                     same = abs(L - Lref) <= tol
